@@ -33,7 +33,7 @@ NuDelta == 2                             \* a "future" nextUpdate lies this many
 (* ---- responder behaviour classes ---------------------------------------- *)
 Authentic == {"good", "revoked", "unknown", "delegGood", "delegRevoked"}
 \* (...AsIssuer: signed by that key with its certificate embedded, the signed responder id naming the issuer)
-NoAnswer  == {"stranger", "strangerEmbedded", "ownCert", "ownCertBare", "ownCertAsIssuer", "delegNoEku", "delegNoEkuBare", "delegNoEkuAsIssuer", "otherDelegBare", "otherDelegEmbedded", "sibling", "otherSerial",
+NoAnswer  == {"stranger", "strangerEmbedded", "lookalikeEmbedded", "ownCert", "ownCertBare", "ownCertAsIssuer", "delegNoEku", "delegNoEkuBare", "delegNoEkuAsIssuer", "otherDelegBare", "otherDelegEmbedded", "sibling", "otherSerial",
               "errStatus", "http500", "garbage", "refused", "wrongContent", "httpsUntrusted"}
 NonHttp   == {"ldap"}
 Classes   == Authentic \cup NoAnswer \cup NonHttp
